@@ -26,7 +26,7 @@ CLAIMED = {
               "and decode - end to end over the REGENERATED LabelEncoder (fit, transform, inverse_transform) and the variable's label table - is a rearrangement of the "
               "declared items for EVERY item list, repeated items included (the theorem that needed NoDup exposed the defect repaired in a2d4278). "
               "Multi-variables, random sampling and multi-variable validators: same laws proved on the hand model (Vars.v), tied to the code by "
-              "vm_compute correspondence on generated definitions and values (boundary, +-1ulp, huge, inf, numpy scalars, ties)."),
+              "vm_compute correspondence on generated definitions and values (boundary, +-1ulp, huge, inf, numpy scalars, ties); the laws are also swept on the real classes at LARGE sizes (8193 .. 3e6 choices around both ends of the index range, permutations of up to 131075 items: testing)."),
         note=TB + " Inputs to correct are non-NaN; bounds finite; choice lists non-empty; labels modulo Python's == with the sort key a total order (hypotheses of the two order theorems only). numpy's uniform/choice/permutation "
                   "ranges are the hypothesis draw_ok of the sampling theorem (sampled differentially).",
         technique="Coq proof over regenerated Gallina (T-core) + hand model; bridge lemmas; vm_compute correspondence",
@@ -86,7 +86,7 @@ CLAIMED = {
         text=("PARTIAL proof. Proved (Coq): for ALL 84 exported optimizers (each reaches the objective only through _init_agent: regenerated fact, no "
               "exception) every argument objective_function is ever called with - discarded candidates included - is a member of the search space, "
               "given H_raw; the regenerated solve/_fcn pass the CORRECTED argument. NOT proved: H_raw; its violations (NaN candidates) are exactly C05 "
-              "violations (lemma nan_candidate_not_in_space) and are found by the recording-objective search, the edge suite and the degenerate-population campaign: eight known findings."),
+              "violations (lemma nan_candidate_not_in_space) and are found by the recording-objective search, the edge suite (incl. discrete variables with 16385+ choices) and the degenerate-population campaign: ten known findings (two of them at the documented configuration, found by other-seed passes and a 11 760-run census)."),
         note=TB + " Worker processes record to per-process files; H_raw is a hypothesis monitored by search.",
         technique="Coq proof (calls invariant of the provenance machine) + recording-objective search over all optimizers and modes",
         design="§7 C05"),
@@ -186,7 +186,7 @@ CLAIMED = {
               "enums.MetaEnum/ModeSolver pinned by shape extraction (fail closed); correspondence by vm_compute of check_input/get_mode tables against the real "
               "constructor for n, m in 1..3, every shape and mode value; execute() and export_results run for real with reporting optimizers "
               "(modes, workers, tasks seen; table shapes; one file per algorithm under <save_path>/<name>/ for the three formats), and with a real optimizer checking "
-              "WHERE the evaluations of a process / thread / serial pair really ran."),
+              "WHERE the evaluations of a process / thread / serial pair really ran and that what execute() returns for each pair is that run's result (whole generations, best_solution the optimum of the last one, the serial pair equal to a direct run)."),
         note=TB + " Process pool and file system exercised, not modelled; tie is shape-pinning + correspondence, not translation.",
         technique="Coq proof on hand model (list/nth arithmetic) + shape pin + vm_compute correspondence + real execute()/export runs",
         design="§7 C20"),
@@ -211,7 +211,7 @@ CLAIMED = {
               "objectives keeps its length), and with non-empty generations the run returns a complete result (K+1 generations, K rates, K <= max_cycles). NOT proved: that the interior "
               "of the 84 numpy kernels raises no Python error on every valid task - no Gallina model expresses numpy's dynamic typing and broadcasting; that half is the keyed "
               "failure census (testing): strict on continuous tasks (any failure not listed as a known finding is a violation), per (optimizer, encoding) pair against a committed "
-              "works-today baseline on integer-coded tasks."),
+              "works-today baseline on integer-coded tasks. The task-level rejection rows are also probed in a fresh interpreter started with -O (validators written as assert)."),
         note=TB + " The census is a search, not a proof; failure keys are (optimizer, exception type, innermost pyvolutionary function); 9 known findings with deterministic replays.",
         technique="Coq proof (rejection table + no-step-before-loop on the regenerated schema; regenerated validators; framework totality) + keyed failure census over all optimizers",
         design="§7 C06"),
